@@ -46,7 +46,7 @@ def check_run(case, r, acc, workdir):
     if r.out_text is None:
         classes.append('no-output')
         return False, classes
-    if not any(e['argv'] and e['argv'][-1] != r.infile and e['role'] == 'main' for e in r.log):
+    if not any(e['argv'] and e['argv'][-1] not in (r.infile, r.infile_arg) and e['role'] == 'main' for e in r.log):
         acc.violation('output-without-any-candidate',
                       'an output file exists although the command was never run on any candidate', case)
     in_toks = vspec.tokens_of_text(case['text'])
@@ -76,7 +76,7 @@ def check_run(case, r, acc, workdir):
         raise RuntimeError('oracle twin disagreement in C01')
     # (b) token sequence is that of a logged candidate
     th = vspec.token_hash(out_toks)
-    cand = [e for e in r.log if e['argv'] and e['argv'][-1] != r.infile]
+    cand = [e for e in r.log if e['argv'] and e['argv'][-1] not in (r.infile, r.infile_arg)]
     for role in ['main'] + (['cc'] if case.get('spec_cc') else []):
         if not any(e['tokhash'] == th and e['role'] == role for e in cand):
             acc.violation(f'out-not-a-tested-candidate/{case["fmt"]}',
